@@ -565,7 +565,8 @@ func (x *Exec) intrinsicNamed(fn *ssa.Function, path, name string, args []Value)
 	case "errors.Is":
 		a, b := args[0].(Iface), args[1].(Iface)
 		if a.T == nil || b.T == nil {
-			return Bool{C: a.T == nil && b.T == nil}, true
+			// a nil error matches nothing (the target may be a sentinel of a package the executor did not initialise)
+			return Bool{C: false}, true
 		}
 		if !x.identical(a.T, b.T) {
 			return Bool{C: false}, true
